@@ -138,6 +138,19 @@ func cmpPair(r *rng.R) (dec.D, dec.D, string) {
 		if r.Chance(1, 3) {
 			y = dec.Special(dec.Inf, r.Bool())
 		}
+		switch r.Intn(4) {
+		case 0:
+			// the representation an overflow produces (coefficient and exponent
+			// of the value that did not fit are still there)
+			x = gen.OverflowInf(r)
+		case 1:
+			// ... compared with that very value: what one computes by running an
+			// operation in a narrow context and in a wide one
+			x = dec.D{Form: dec.Inf, Neg: y.Neg, C: new(big.Int).Set(y.C), E: y.E}
+			if y.Form != dec.Finite || r.Chance(1, 4) {
+				x = gen.OverflowInf(r)
+			}
+		}
 		if r.Bool() {
 			x, y = y, x
 		}
